@@ -395,10 +395,15 @@ def show(bs, n=6, w=48):
     return '[' + ', '.join(items) + (f', ... {len(bs)} items' if len(bs) > n else '') + ']'
 
 
+_PREV = {}     # the reader runs that preceded the current one in this process (variant, chunks): a failure caused by what an
+#                EARLIER reader object left behind (class-level / module-level state) only reproduces after them
+
+
 def replay_data(lines, chunks, variant, entry):
     return {'entry': entry, 'variant': variant, 'lines_hex': [l.hex() for l in lines],
             'chunks_hex': [c.hex() for c in chunks],
-            'chunks_text': [c.decode('latin-1') for c in chunks][:40]}
+            'chunks_text': [c.decode('latin-1') for c in chunks][:40],
+            'previous': [{'variant': v, 'chunks_hex': [c.hex() for c in ch]} for v, ch in _PREV.get('runs', [])]}
 
 
 # --------------------------------------------------------------------------------------------------------------------
@@ -420,7 +425,9 @@ def check_cases(ctx, cases, with_messages=False, variants=VARIANTS, samples=True
         variant = variants[n % len(variants)]
         stream = b''.join(chunks)
         rep.case((stream, tuple(len(c) for c in chunks), variant), kind=kind)
+        _PREV['runs'] = _PREV.get('now', [])[-2:]
         got = impl_read(variant, chunks)
+        _PREV['now'] = _PREV['runs'] + [(variant, chunks)]
         classes = seg_class(chunks)
         for c in classes:
             rep.count('seg:' + c)
@@ -591,11 +598,16 @@ def replay(ctx, data):
     lines = [bytes.fromhex(x) for x in data['lines_hex']]
     chunks = [bytes.fromhex(x) for x in data['chunks_hex']]
     variant = data.get('variant', 'SocketStream')
-    if data.get('entry') == 'iter':
-        bad = msgs_oracle(impl_messages('SocketStream', list(lines)), impl_messages(variant, chunks))
-    else:
-        bad = lines_oracle(lines, impl_read(variant, chunks))
-    return f'{bad[0]}: {bad[1]}' if bad else None
+
+    def once():
+        if data.get('entry') == 'iter':
+            bad = msgs_oracle(impl_messages('SocketStream', list(lines)), impl_messages(variant, chunks))
+        else:
+            bad = lines_oracle(lines, impl_read(variant, chunks))
+        return f'{bad[0]}: {bad[1]}' if bad else None
+    for p in data.get('previous') or []:    # the reader runs that preceded it in the recorded run, in order (new reader objects)
+        impl_read(p['variant'], [bytes.fromhex(x) for x in p['chunks_hex']])
+    return once()
 
 
 # --------------------------------------------------------------------------------------------------------------------
